@@ -222,7 +222,8 @@ def encoding_differential(seed, n):
              ("mod-3", lambda x: x % -3), ("modp", lambda x: x % P), ("bool", lambda x: 1 if x else 0), ("cmp", lambda x: (x < 4) + (x >= -2) + (x == 3))]
     binary = [("add", lambda x, y: x + y), ("sub", lambda x, y: x - y), ("mul", lambda x, y: x * y), ("fdiv", lambda x, y: x // y),
               ("mod", lambda x, y: x % y), ("divmod", lambda x, y: divmod(x, y)[0] * 1000 + divmod(x, y)[1]), ("lt", lambda x, y: x < y),
-              ("mulmix", lambda x, y: (x * y) * x - y * (x + 1)), ("rmod", lambda x, y: 17 % y if y else 0)]
+              ("mulmix", lambda x, y: (x * y) * x - y * (x + 1)), ("rmod", lambda x, y: 17 % y if y else 0),
+              ("or2", lambda x, y: x | y), ("and2", lambda x, y: x & y), ("xor2", lambda x, y: x ^ y), ("or2shift", lambda x, y: x | (y << 2))]
     pool = [0, 1, 2, 3, 7, 8, -1, -2, -7, 255, 256, 1023, -1024, 12345, P - 1, P, P + 5, -P, 2 ** 256, 2 ** 300 + 11]
     for it in range(n):
         name, f = rnd.choice(unary + binary)
